@@ -432,3 +432,31 @@ PROPS["C02"]._v = ALL_V
 for _u in PROPS["C11"]._k:
     if _u.harness.startswith("c11_list_range_"):
         _u.thorough_only = True
+
+
+V_STRLIT = VUnit("str_lit", "str_lit", ["lexer::Lexer::next_str_literal"])
+V_INTERP = VUnit("interp", "interp", ["eval::interpolate_string"])
+ALL_V += [V_STRLIT, V_INTERP]
+PROPS["C02"]._v = ALL_V
+PROPS["C17"]._v = PROPS["C17"]._v + [V_INTERP]
+PROPS["C03"]._v = [V_STRLIT]
+
+PROPS["C15"] = Prop(
+    "C15", "proof",
+    "Unit V-strlit: Lexer::next_str_literal copied verbatim and verified (Verus) over an abstract scanner (text, position), for input of any length "
+    "below 2^31 characters and any characters: every interpolation slot it records spans `${` .. the MATCHING `}` of the decoded text (character "
+    "offsets; slot expressions may contain balanced braces), slots are ascending and disjoint, the scanner never moves past the input. Unit V-interp: "
+    "interpolate_string copied verbatim and verified for ANY Unicode text: with those slots it only slices the string at character boundaries, in order "
+    "and in range (std's panic condition is a checked precondition), evaluates each slot expression once in the current scope, requires a string value, "
+    "and returns exactly the concatenation, in order, of the literal pieces and the slot values.",
+    vunits=[V_STRLIT, V_INTERP],
+    assumptions=[
+        "the generated parser passes a string token's (text, slots) payload unchanged into the AST, so V-strlit's postcondition is V-interp's precondition",
+        "escape decoding (\\\\ \\\" \\$ \\n \\r \\xHH) and the error positions of next_str_literal are verified only for absence of panics, not against a decoding table",
+        "strings as byte vectors: `+`, `==`, indexing on bytes are covered by V-binop / V-eq / V-expr; ->len() (String::len after from_utf8) is a std contract",
+        "the brace counter is an i32: inputs of 2^31 or more characters are outside the contract (a slot with 2^31 nested `{` would overflow it)",
+        "the slot's own lexer + generated parser are external (uninterpreted)",
+    ],
+    trusted_base=VERUS_TRUST,
+    not_covered=["the escape decoding table", "lexing of the rest of the file", "->len()", "the parser"],
+)
